@@ -6,7 +6,7 @@ OPS = ["vec_znx_zero", "vec_znx_copy", "vec_znx_negate", "vec_znx_add", "vec_znx
 
 
 def _jobs(tier):
-    mult = 1 if tier == "quick" else 20
+    mult = 1 if tier == "quick" else 300
     jobs = []
     for k in range(1, 17):
         jobs.append(dict(sub="vec", count=geo(k, 6000, 7, 40) * mult, fix=dict(k=k)))
